@@ -48,14 +48,14 @@ func c01Gen(t *rapid.T) interface{} {
 			c.Corpus.Docs = append(c.Corpus.Docs, lib.IntN(t, 0, len(assets())-1, "corpusDoc"))
 		}
 	}
-	q := computeQ(c.Thr)
+	q := refQ(c.Thr)
 	ns := lib.IntN(t, 0, 3, "nsynth")
 	if c.Corpus.Full && lib.IntN(t, 0, 3, "fullSynth") > 0 {
 		ns = 0 // a synthetic document makes the corpus unique, i.e. forces a rebuild of the full corpus
 	}
 	for i := 0; i < ns; i++ {
 		lo, hi := q, 300
-		if lib.IntN(t, 0, 2, "synthTiny") == 0 {
+		if lib.IntN(t, 0, 1, "synthTiny") == 0 {
 			hi = q + 1
 		}
 		c.Corpus.Synth = append(c.Corpus.Synth, genSynthDoc(t, i, lo, hi))
@@ -87,11 +87,11 @@ func c01Build(c *c01Case, cl *Classifier) (input []byte, planted []c01Planted, w
 	var eligible, tiny, synth []corpusFile
 	for _, f := range files {
 		d := cl.docs[docKey(f)]
-		if d == nil || d.size() < cl.q || d.size() == 0 {
+		if d == nil || d.size() < refQ(c.Thr) || d.size() == 0 {
 			continue
 		}
 		eligible = append(eligible, f)
-		if d.size() <= cl.q+1 {
+		if d.size() <= refQ(c.Thr)+1 {
 			tiny = append(tiny, f)
 		}
 		if strings.HasPrefix(f.Name, "Synth-") {
@@ -228,7 +228,7 @@ func c01Check(ci interface{}) lib.Outcome {
 			}
 		}
 		if !found {
-			return lib.Outcome{Violation: fmt.Sprintf("copy %d of %s (threshold %v, q=%d, %d tokens) not reported as %s/%s conf=1 tokens=%d-%d lines=%d-%d; Match returned:\n%s",
+			return lib.Outcome{Violation: fmt.Sprintf("copy %d of %s (threshold %v, classifier q=%d, %d tokens) not reported as %s/%s conf=1 tokens=%d-%d lines=%d-%d; Match returned:\n%s",
 				k, p.file.key(), c.Thr, cl.q, p.n, p.file.Cat, p.file.Name, p.off, p.off+p.n-1, p.startLine, p.endL, fmtRecs(canon(res))), Classes: classes}
 		}
 	}
@@ -273,14 +273,14 @@ func c01EnumCheck(ci interface{}) lib.Outcome {
 	a := assets()
 	f := a[c.Copies[0].Doc%len(a)]
 	d := cl.docs[docKey(f)]
-	if d == nil || d.size() < cl.q || d.size() == 0 {
+	if d == nil || d.size() < refQ(c.Thr) || d.size() == 0 {
 		return lib.Outcome{Skip: "document-shorter-than-q"}
 	}
 	// translate to an index into the eligible list
 	k := 0
 	for _, g := range a {
 		dg := cl.docs[docKey(g)]
-		if dg == nil || dg.size() < cl.q || dg.size() == 0 {
+		if dg == nil || dg.size() < refQ(c.Thr) || dg.size() == 0 {
 			continue
 		}
 		if g.key() == f.key() {
